@@ -915,7 +915,7 @@ struct QuatArray_SetEulerXYZ : public Task
     {
         for (size_t i = start; i < end; ++i)
         {
-            Eulerf e(rot[i]);
+            IMATH_NAMESPACE::Euler<T> e(rot[i]);
             quats[i] = e.toQuat();
         }
     }
